@@ -5,4 +5,11 @@
 // harness and executed by the REAL core/vm interpreter on a REAL core/state.StateDB. The oracle is
 // the DSL's reference semantics (deep-copy snapshots, no journal, no gas) plus model-free
 // invariants observed through the vm.Tracer hook.
+//
+// Call targets of every kind (precompile.go, gen.go): native contracts 0x01..0x08 with valid and
+// rejected inputs and gas around their price, absent / code-less / externally owned accounts, the
+// executing account itself, hosts entered without selector - by CALL, CALLCODE, DELEGATECALL,
+// STATICCALL and directly by a transaction. Creation frames at the code-deposit boundary
+// (calib.go): the gas knob is sized by dry runs of the implementation, the verdict "deposit not
+// paid = failed frame, everything undone" is the reference's and is re-confirmed per execution.
 package c16
